@@ -78,6 +78,26 @@ type TermTable struct {
 	vars  []*Term
 	True  *Term
 	False *Term
+	mark, varMark int
+}
+
+// Mark remembers the terms that exist now (program initialisation); Purge drops
+// every term created since from the table so that the memory of finished jobs
+// can be reclaimed. Identifiers are never reused.
+func (tt *TermTable) Mark() { tt.mark, tt.varMark = tt.next, len(tt.vars) }
+
+func (tt *TermTable) Purge() {
+	if tt.mark == 0 {
+		return
+	}
+	for k, t := range tt.tab {
+		if t.id >= tt.mark {
+			delete(tt.tab, k)
+		}
+	}
+	if len(tt.vars) > tt.varMark {
+		tt.vars = tt.vars[:tt.varMark]
+	}
 }
 
 var TT = newTermTable()
